@@ -3,6 +3,7 @@
 #pragma once
 #include "inproc_bus.h"
 #include "busmodel.h"
+#include <set>
 
 namespace vp {
 
@@ -36,3 +37,43 @@ std::string check_registry(Bus& bus, int obs, const BusModel& model, const std::
 std::string normalize_uniques(const std::string& s);
 
 }  // namespace vp
+
+namespace vp {
+
+// Common skeleton of the bus-history targets: a bus, its model, N raw clients that
+// are index-aligned with model connections, a log, and comparison helpers that
+// raise a violation with the history attached.
+class Hist {
+ public:
+  Bus bus;
+  BusModel model;
+  std::vector<std::string> log;
+  const char* prop;
+  explicit Hist(const char* p) : prop(p) {}
+  [[noreturn]] void fail(const char* kind, const std::string& what);
+  void start(const std::string& config);
+  // connect + auth (+ Hello unless no_hello); returns index (same in bus and model)
+  int add_client(bool do_hello = true, uid_t uid = (uid_t)-1, bool negotiate_fd = true);
+  // Hello for an existing client; checks the reply, NameAcquired, uniqueness; other clients' frames vs model
+  void hello(int c);
+  std::string uniq(int c) { return bus.client(c).unique; }
+  bool open(int c) { return bus.client(c).open(); }
+  // drain every open client and compare with `out` (multiset per client; reply-last for `caller` if serial != 0).
+  // `ignore`: optional predicate to drop frames before comparison.
+  void compare_all(Out& out, int caller = -1, uint32_t serial = 0, const char* what = "");
+  void add_rule(int c, const std::string& text);      // AddMatch on bus + model, must succeed
+  void own(int c, const std::string& name, uint32_t flags);  // RequestName on bus + model, compared
+  std::string key() const;                            // normalised log for distinctness
+  std::string sample() const;
+  std::pair<long, int> finish();                      // stop bus; (blocks leaked, fds leaked)
+  static std::set<std::string> all_uniques;           // every unique name ever handed out in this process
+};
+
+}  // namespace vp
+
+namespace vp {
+// Ordered comparison: `groups` are the expectations produced by consecutive operations for one client; the observed
+// frames must split, in order, into consecutive slices each of which matches its group as a multiset (optional
+// expectations may be absent).  Returns "" or a description.
+std::string match_groups(const std::vector<RecvFrame>& got, const std::vector<std::vector<Exp>>& groups);
+}
